@@ -1438,6 +1438,15 @@ pub fn run_w3_clear(ctx: &Ctx, per_gen: usize, cycles: u64, cov: &mut Cov) -> Op
         if arena.capacity() != cap {
             fire!(["C13"], "clear-changed-capacity", cyc, "clear() changed capacity() {} -> {}", cap, arena.capacity());
         }
+        if ctx.is("C17") && (full || cyc % 257 == 0) {
+            // an id whose slot no longer exists: whatever the calls do with it (value or panic), every build does the same
+            let old = ids[ids.len() - 1];
+            digest.u(guarded(|| old.is_removed(&arena)).map_or(7, |b| b as u64));
+            digest.u(guarded(|| arena.get(old).is_some()).map_or(7, |b| b as u64));
+            digest.u(guarded(|| old.children(&arena).count()).map_or(u64::MAX, |c| c as u64));
+            digest.u(guarded(|| old.ancestors(&arena).count()).map_or(u64::MAX, |c| c as u64));
+            digest.u(guarded(|| old.checked_append(old, &mut arena).is_ok()).map_or(7, |b| b as u64));
+        }
         match guarded(|| (arena.get(ids[0]).is_some(), arena.get_node_id_at(NonZeroUsize::new(1).unwrap()).is_some())) {
             Ok((false, false)) => {}
             Ok((g, a)) => fire!(["C11"], "lookup-in-cleared-arena", cyc, "after clear(): get(old id).is_some() = {}, get_node_id_at(1).is_some() = {}", g, a),
@@ -1592,8 +1601,61 @@ pub fn run_w3_tok(ctx: &Ctx, cycles: u64, cov: &mut Cov) -> Option<Violation> {
     let mut tid = 1u64;
     let mut cur = arena.new_node(Tok::make(tid, tid));
     let mut evals = 0u64;
+    // how often each slot was re-issued so far (index = position - 1)
+    let mut reissued: Vec<u32> = vec![0; 2];
+    let note = |reissued: &mut Vec<u32>, id: indextree::NodeId, fresh_ok: bool| {
+        let s = usize::from(id) - 1;
+        if s >= reissued.len() {
+            reissued.resize(s + 1, 0);
+            let _ = fresh_ok;
+        } else {
+            reissued[s] += 1;
+        }
+    };
     for cyc in 1..=cycles {
         ctx.beacon.tick.fetch_add(1, Ordering::Relaxed);
+        let gen_of_slot = reissued[usize::from(cur) - 1] as u64 + 1;
+        if (32_761..=32_769).contains(&gen_of_slot) {
+            // the worn node leaves as an INNER node of a subtree freed by one remove_subtree call:
+            // top -> [left, cur -> [kid -> [grandkid]], right]
+            let worn_tid = tid;
+            let base = tid + 1;
+            tid += 5;
+            let r = guarded(|| {
+                let top = arena.new_node(Tok::make(base, 0));
+                let left = top.append_value(Tok::make(base + 1, 0), &mut arena);
+                top.append(cur, &mut arena);
+                let kid = cur.append_value(Tok::make(base + 2, 0), &mut arena);
+                let grandkid = kid.append_value(Tok::make(base + 3, 0), &mut arena);
+                let right = top.append_value(Tok::make(base + 4, 0), &mut arena);
+                let members: Vec<indextree::NodeId> = top.descendants(&arena).collect();
+                top.remove_subtree(&mut arena);
+                (members, [top, left, kid, grandkid, right])
+            });
+            let (members, made) = match r {
+                Ok(m) => m,
+                Err(p) => return viol("remove_subtree-panic", p, cyc),
+            };
+            for id in made {
+                note(&mut reissued, id, true);
+            }
+            for t in [base, base + 1, base + 2, base + 3, base + 4, worn_tid] {
+                if drops_of(t) != 1 {
+                    return viol("subtree-member-not-dropped-once", format!("remove_subtree of a 6-node tree whose inner node sits in a slot re-issued {} times: payload token {} was dropped {} times", gen_of_slot - 1, t, drops_of(t)), cyc);
+                }
+            }
+            if members.len() != 6 || members.iter().any(|m| !m.is_removed(&arena)) || arena.iter().filter(|n| !n.is_removed()).count() != 1 {
+                return viol("subtree-member-still-live", format!("after remove_subtree of the 6-node tree {} nodes are live (the bystander alone should be)", arena.iter().filter(|n| !n.is_removed()).count()), cyc);
+            }
+            cov.bump("worn_slot_freed_as_inner_node_of_a_subtree");
+            tid += 1;
+            cur = match guarded(|| arena.new_node(Tok::make(tid, tid))) {
+                Ok(id) => id,
+                Err(p) => return viol("alloc-panic", p, cyc),
+            };
+            note(&mut reissued, cur, true);
+            continue;
+        }
         if let Err(p) = guarded(|| cur.remove(&mut arena)) {
             return viol("remove-panic", p, cyc);
         }
@@ -1608,6 +1670,7 @@ pub fn run_w3_tok(ctx: &Ctx, cycles: u64, cov: &mut Cov) -> Option<Violation> {
             Ok(id) => id,
             Err(p) => return viol("alloc-panic", p, cyc),
         };
+        note(&mut reissued, cur, true);
         if drops_of(tid) != 0 || arena[cur].get().tid() != tid {
             return viol("live-payload", format!("freshly stored payload token {} already dropped / not readable", tid), cyc);
         }
@@ -1828,6 +1891,70 @@ pub fn run_deep(prop: &'static str, depth: usize) -> Result<u64, (String, String
             bail!("wide-remove_subtree", "after remove_subtree(root) of the wide tree the number of live nodes is not 1 (the detached one)");
         }
         obs += 5;
+    }
+    // ---- a very long TOP-LEVEL chain: `len` parentless nodes linked as siblings (no parent to bound any walk)
+    {
+        let len = depth / 2;
+        let mut a: Arena<Plain> = Arena::new();
+        let first = a.new_node(p(0));
+        let mut chain: Vec<NodeId> = vec![first];
+        for i in 1..len {
+            let n = a.new_node(p(i as u64));
+            if chain[i - 1].checked_insert_after(n, &mut a).is_err() {
+                bail!("chain-build", "insert_after between two parentless nodes was refused");
+            }
+            chain.push(n);
+        }
+        let below = chain[len / 2].append_value(p(9_000_000), &mut a);
+        let last = chain[len - 1];
+        if matches!(prop, "C09" | "C10" | "C02" | "C05") {
+            let mid = chain[len / 2];
+            if first.following_siblings(&a).count() != len || last.preceding_siblings(&a).count() != len || mid.following_siblings(&a).count() != len - len / 2 {
+                bail!("chain-siblings", "sibling iterators along a top-level chain of {} nodes do not yield them all", len);
+            }
+            if first.following_siblings(&a).rev().next() != Some(last) || last.preceding_siblings(&a).rev().next() != Some(first) || mid.following_siblings(&a).next_back() != Some(last) || mid.preceding_siblings(&a).next_back() != Some(first) {
+                bail!("chain-back-end", "the back end of a sibling iterator over a top-level chain of {} nodes is not the chain end", len);
+            }
+            if mid.following_siblings(&a).rev().count() != len - len / 2 || mid.preceding_siblings(&a).rfold(0usize, |n, _| n + 1) != len / 2 + 1 {
+                bail!("chain-rev-count", "reverse iteration along a top-level chain of {} nodes has the wrong length", len);
+            }
+            #[allow(deprecated)]
+            {
+                let pred: Vec<NodeId> = below.predecessors(&a).take(len + 5).collect();
+                if pred.len() != len / 2 + 2 || pred.last() != Some(&first) || below.predecessors(&a).last() != Some(first) || below.predecessors(&a).count() != len / 2 + 2 {
+                    bail!("chain-predecessors", "predecessors() of a node below the middle of a top-level chain of {} nodes: {} items, last() = {:?}", len, pred.len(), below.predecessors(&a).last().map(usize::from));
+                }
+            }
+            if below.ancestors(&a).count() != 2 || mid.descendants(&a).count() != 2 {
+                bail!("chain-ancestors", "ancestors / descendants next to a top-level chain are wrong");
+            }
+            obs += 6;
+        }
+        if matches!(prop, "C03" | "C05" | "C02" | "C01" | "C04" | "C12") {
+            // moves and removals in the middle of the chain
+            let x = a.new_node(p(9_000_001));
+            if chain[len / 3].checked_insert_before(x, &mut a).is_err() || a[x].next_sibling() != Some(chain[len / 3]) || a[x].previous_sibling() != Some(chain[len / 3 - 1]) || a[x].parent().is_some() {
+                bail!("chain-insert", "insert_before in the middle of a top-level chain of {} nodes did not link the node in", len);
+            }
+            if last.checked_insert_after(first, &mut a).is_err() || a[last].next_sibling() != Some(first) || a[chain[1]].previous_sibling().is_some() || a[first].next_sibling().is_some() {
+                bail!("chain-rotate", "moving the first node of a top-level chain of {} nodes behind the last did not rotate the chain", len);
+            }
+            x.detach(&mut a);
+            if a[chain[len / 3 - 1]].next_sibling() != Some(chain[len / 3]) || a[x].previous_sibling().is_some() || a[x].next_sibling().is_some() {
+                bail!("chain-detach", "detach in the middle of a top-level chain did not close the gap");
+            }
+            chain[len / 2].remove(&mut a);
+            if a[below].parent().is_some() || a[below].previous_sibling() != Some(chain[len / 2 - 1]) || a[below].next_sibling() != Some(chain[len / 2 + 1]) || a[chain[len / 2 + 1]].previous_sibling() != Some(below) {
+                bail!("chain-remove", "remove() of a chain member with one child did not put the child in its place in the top-level chain");
+            }
+            if prop == "C01" {
+                match mon::c01_wellformed(&a) {
+                    Ok(n) => obs += n / 1000,
+                    Err(f) => bail!(format!("chain-{}", f.sig), "{}", f.detail),
+                }
+            }
+            obs += 4;
+        }
     }
     Ok(obs + 1)
 }
